@@ -408,6 +408,7 @@ pub fn check(arm: &dyn Arm, tier: Tier, base_seed: u64) -> i32 {
             "known_findings_hit": known_hits.iter().map(|(k, v)| (k.clone(), v.1)).collect::<BTreeMap<_, _>>(),
             "real_vs_stub": arm.real_vs_stub(),
             "threads": threads,
+            "seed_derivation": "run i uses mix(VERIF_SEED, hash(property id), i) for its workload and mix(that, 0x5ced) for its scheduling / fault decisions",
             "akd_commit": akd_commit(),
             "extra": arm.extra_evidence(),
         },
